@@ -276,6 +276,27 @@ theorem C08_background_step_reads_unchanged (p p' : PState) (a : PAction) (h : R
     simp only [lsmStep] at hl
     exact (reopen_lsm h.inv hl).get k
 
+/-- **a crash (or a failing call) at ANY point inside ANY step, followed by a reopen**: the image
+corresponds to the state `q` before or after the interrupted step; whenever the reopen of that
+image is enabled (fresh file numbers), the recovered instance is again in correspondence with its
+image and reads exactly what `q` read — so the run continues under all theorems of this file, for
+any number of crash / recover rounds. -/
+theorem C02_crash_inside_a_step_then_reopen (p p' : PState) (a : PAction) (h : Rel p)
+    (hs : pstep p a = some p') (i : Nat) (hi : i ≤ (opsOf p a).length) :
+    ∃ q : PState, (q.s = p.s ∧ q.c = p.c ∨ q.s = p'.s ∧ q.c = p'.c) ∧
+      q.d = ((opsOf p a).take i).foldl apply p.d ∧ Rel q ∧
+      ∀ (t1 t2 w' m' : Nat) (pr : PState), pstep q (.reopen t1 t2 w' m') = some pr →
+        Rel pr ∧ ∀ k, dbGet pr.s k pr.s.lastSeq = dbGet q.s k q.s.lastSeq := by
+  rcases (C08_every_point_of_a_step_is_consistent p p' a h hs i hi).2 with hr | hr
+  · refine ⟨{ s := p.s, d := ((opsOf p a).take i).foldl apply p.d, c := p.c }, Or.inl ⟨rfl, rfl⟩, rfl, hr, ?_⟩
+    intro t1 t2 w' m' pr hp
+    exact ⟨(C02_step_accepted _ pr _ hr hp).2,
+      C08_background_step_reads_unchanged _ pr _ hr hp (fun ops => by simp)⟩
+  · refine ⟨{ s := p'.s, d := ((opsOf p a).take i).foldl apply p.d, c := p'.c }, Or.inr ⟨rfl, rfl⟩, rfl, hr, ?_⟩
+    intro t1 t2 w' m' pr hp
+    exact ⟨(C02_step_accepted _ pr _ hr hp).2,
+      C08_background_step_reads_unchanged _ pr _ hr hp (fun ops => by simp)⟩
+
 /-- a freshly created database is in correspondence with the empty LSM state -/
 theorem fresh_rel (m w : Nat) : Rel (pinit m w) := by
   have hlv : ∀ j, lv init.levels j = [] := by
@@ -284,10 +305,11 @@ theorem fresh_rel (m w : Nat) : Rel (pinit m w) := by
     split <;> rfl
   have hs : (pinit m w).s = init := rfl
   refine { inv := (inv_iff init).mp Rain.Lsm.inv_init, wf := ?_, cur := rfl, edits := ?_, tables := ?_,
-           walMem := ?_, walImm := Or.inl ⟨rfl, rfl⟩, others := ?_, walMax := ?_ }
+           walMem := ?_, walImm := Or.inl ⟨rfl, rfl⟩, others := ?_, walMax := ?_,
+           manLe := by simp [Ctx.w0, pinit] }
   · simp [WF, pinit]
   · refine ⟨[{ walNumber := some w, added := [], deleted := [] }], by simp [pinit, lookup],
-      by simp [walNoOf, Ctx.w0, pinit], ?_⟩
+      by simp [walNoOf, pinit], ?_⟩
     intro q
     simp only [versionOf, List.foldl_cons, List.foldl_nil, List.filter_nil, List.append_nil,
       List.not_mem_nil, false_iff]
